@@ -1,0 +1,194 @@
+//! Verification hooks (only compiled with `--cfg zstd_rs_verif`).
+//!
+//! Thin pass-through wrappers and read-only views that make crate-private pure functions reachable from
+//! an external verification harness. Nothing here changes behaviour; nothing is compiled in normal builds.
+use alloc::format;
+use alloc::string::String;
+use alloc::vec::Vec;
+
+pub use crate::decoding::sequence_execution::verif::do_offset_history;
+pub use crate::decoding::sequence_section_decoder::verif::{
+    lookup_ll_code, lookup_ml_code, predefined,
+};
+pub use crate::encoding::verif::{
+    compress_literals, encode_literal_length, encode_match_len, encode_offset, encode_seqnum,
+    raw_literals,
+};
+
+/// `SequencesHeader::parse_from_header`: (bytes used, number of sequences, modes byte)
+pub fn parse_sequences_header(src: &[u8]) -> Result<(u8, u32, Option<u8>), String> {
+    let mut h = crate::blocks::sequence_section::SequencesHeader::new();
+    let n = h.parse_from_header(src).map_err(|e| format!("{e:?}"))?;
+    let modes = h.modes.map(|m| {
+        use crate::blocks::sequence_section::ModeType as M;
+        let b = |m: M| match m {
+            M::Predefined => 0u8,
+            M::RLE => 1,
+            M::FSECompressed => 2,
+            M::Repeat => 3,
+        };
+        b(m.ll_mode()) << 6 | b(m.of_mode()) << 4 | b(m.ml_mode()) << 2
+    });
+    Ok((n, h.num_sequences, modes))
+}
+
+/// `LiteralsSection::parse_from_header`: (bytes used, type 0..=3, regenerated size, compressed size, streams)
+#[allow(clippy::type_complexity)]
+pub fn parse_literals_header(src: &[u8]) -> Result<(u8, u8, u32, Option<u32>, Option<u8>), String> {
+    use crate::blocks::literals_section::{LiteralsSection, LiteralsSectionType as T};
+    let mut s = LiteralsSection::new();
+    let n = s.parse_from_header(src).map_err(|e| format!("{e:?}"))?;
+    let t = match s.ls_type {
+        T::Raw => 0,
+        T::RLE => 1,
+        T::Compressed => 2,
+        T::Treeless => 3,
+    };
+    Ok((n, t, s.regenerated_size, s.compressed_size, s.num_streams))
+}
+
+/// `BlockDecoder::read_block_header`: (last, type 0..=2, decompressed size, content size)
+pub fn read_block_header(src: &[u8]) -> Result<(bool, u8, u32, u32), String> {
+    use crate::blocks::block::BlockType as T;
+    let mut d = crate::decoding::block_decoder::new();
+    let (h, _) = d.read_block_header(src).map_err(|e| format!("{e:?}"))?;
+    let t = match h.block_type {
+        T::Raw => 0,
+        T::RLE => 1,
+        T::Compressed => 2,
+        T::Reserved => 3,
+    };
+    Ok((h.last_block, t, h.decompressed_size, h.content_size))
+}
+
+pub struct FrameHeaderView {
+    pub header_len: u8,
+    pub descriptor: u8,
+    pub window_size: Result<u64, String>,
+    pub dictionary_id: Option<u32>,
+    pub frame_content_size: u64,
+    pub content_checksum: bool,
+    pub single_segment: bool,
+}
+
+/// `read_frame_header` plus the accessors the frame decoder uses
+pub fn read_frame_header(src: &[u8]) -> Result<FrameHeaderView, String> {
+    let (h, n) = crate::decoding::frame::read_frame_header(src).map_err(|e| format!("{e:?}"))?;
+    Ok(FrameHeaderView {
+        header_len: n,
+        descriptor: h.descriptor.0,
+        window_size: h.window_size().map_err(|e| format!("{e:?}")),
+        dictionary_id: h.dictionary_id(),
+        frame_content_size: h.frame_content_size(),
+        content_checksum: h.descriptor.content_checksum_flag(),
+        single_segment: h.descriptor.single_segment_flag(),
+    })
+}
+
+/// `encoding::block_header::BlockHeader::serialize` (type 0 raw, 1 rle, 2 compressed)
+pub fn serialize_block_header(last_block: bool, block_type: u8, block_size: u32) -> Vec<u8> {
+    use crate::blocks::block::BlockType as T;
+    let mut out = Vec::new();
+    crate::encoding::block_header::BlockHeader {
+        last_block,
+        block_type: match block_type {
+            0 => T::Raw,
+            1 => T::RLE,
+            _ => T::Compressed,
+        },
+        block_size,
+    }
+    .serialize(&mut out);
+    out
+}
+
+/// `encoding::frame_header::FrameHeader::serialize`
+pub fn serialize_frame_header(
+    frame_content_size: Option<u64>,
+    single_segment: bool,
+    content_checksum: bool,
+    dictionary_id: Option<u64>,
+    window_size: Option<u64>,
+) -> Vec<u8> {
+    let mut out = Vec::new();
+    crate::encoding::frame_header::FrameHeader {
+        frame_content_size,
+        single_segment,
+        content_checksum,
+        dictionary_id,
+        window_size,
+    }
+    .serialize(&mut out);
+    out
+}
+
+/// The crate's forward bit writer.
+pub struct BitWriter(crate::bit_io::BitWriter<Vec<u8>>);
+impl Default for BitWriter {
+    fn default() -> Self {
+        Self::new()
+    }
+}
+impl BitWriter {
+    pub fn new() -> Self {
+        BitWriter(crate::bit_io::BitWriter::new())
+    }
+    pub fn write_bits(&mut self, bits: u64, num_bits: usize) {
+        self.0.write_bits(bits, num_bits)
+    }
+    pub fn change_bits(&mut self, idx: usize, bits: u64, num_bits: usize) {
+        self.0.change_bits(idx, bits, num_bits)
+    }
+    pub fn append_bytes(&mut self, data: &[u8]) {
+        self.0.append_bytes(data)
+    }
+    pub fn index(&self) -> usize {
+        self.0.index()
+    }
+    pub fn misaligned(&self) -> usize {
+        self.0.misaligned()
+    }
+    pub fn reset_to(&mut self, index: usize) {
+        self.0.reset_to(index)
+    }
+    pub fn dump(self) -> Vec<u8> {
+        self.0.dump()
+    }
+}
+
+/// The crate's forward bit reader.
+pub struct BitReader<'s>(crate::bit_io::BitReader<'s>);
+impl<'s> BitReader<'s> {
+    pub fn new(source: &'s [u8]) -> Self {
+        BitReader(crate::bit_io::BitReader::new(source))
+    }
+    pub fn get_bits(&mut self, n: usize) -> Result<u64, String> {
+        self.0.get_bits(n).map_err(|e| format!("{e:?}"))
+    }
+    pub fn return_bits(&mut self, n: usize) {
+        self.0.return_bits(n)
+    }
+    pub fn bits_read(&self) -> usize {
+        self.0.bits_read()
+    }
+    pub fn bits_left(&self) -> usize {
+        self.0.bits_left()
+    }
+}
+
+/// The crate's backward bit reader.
+pub struct BitReaderReversed<'s>(crate::bit_io::BitReaderReversed<'s>);
+impl<'s> BitReaderReversed<'s> {
+    pub fn new(source: &'s [u8]) -> Self {
+        BitReaderReversed(crate::bit_io::BitReaderReversed::new(source))
+    }
+    pub fn get_bits(&mut self, n: u8) -> u64 {
+        self.0.get_bits(n)
+    }
+    pub fn get_bits_triple(&mut self, n1: u8, n2: u8, n3: u8) -> (u64, u64, u64) {
+        self.0.get_bits_triple(n1, n2, n3)
+    }
+    pub fn bits_remaining(&self) -> isize {
+        self.0.bits_remaining()
+    }
+}
